@@ -96,6 +96,7 @@ def defpath(s):
     m=re.search(r'DefId\(\d+:\d+ ~ ([^)]*)\)',s)
     return m.group(1) if m else None
 NAMES={}
+OTAG={}
 def mangle(path):
     if path in NAMES: return NAMES[path]
     path=re.sub(r'^softposit\[\w+\]::','',path)
@@ -365,7 +366,7 @@ class Fn:
             if op in ('Shl','Shr'):
                 return f'(← Rs.{op.lower()}_{lt} {a} (Rs.toInt_{rt} {b}))'
         if h.startswith('Call'):
-            p,gargs=s.callee(k); args=[s.term(x) for x in kid(k,'args:').kids]
+            p,gargs=s.callee(k); args=[s.term(x) for x in kid(k,'args:').kids]; s.cur_gargs=gargs
             argtys=[prim(s.unwrap(x)[0]) for x in kid(k,'args:').kids]
             if p.startswith('core[') or p.startswith('std[') or p.startswith('num_traits['):
                 s.cur_argtys=[tykey(s.unwrap(x)[0]) for x in kid(k,'args:').kids]
@@ -400,8 +401,13 @@ class Fn:
         want=tuple(s.cur_argtys); retty=LEANTY.get(retty,retty)
         out=[c for c in cands if c in s.sigs and tuple(tykey(x) for x in s.sigs[c].params)==want and tykey(s.sigs[c].ret)==retty]
         raw=tuple(s.cur_rawargtys)
-        o2=[c for c in out if tuple(raw_ty(x) for x in s.sigs[c].params)==raw and (raw or raw_ty(s.sigs[c].ret)==s.cur_rawret)]
-        if len(o2)>=1: return o2[0]
+        o2=[c for c in out if tuple(raw_ty(x) for x in s.sigs[c].params)==raw and raw_ty(s.sigs[c].ret)==s.cur_rawret]
+        if len(o2)==1: return o2[0]
+        if len(o2)>1:
+            g=re.sub(r'softposit\[\w+\]::|\w+::','',getattr(s,'cur_gargs','') or '')
+            o3=[c for c in o2 if OTAG.get(re.match(r'(.*\{impl#\d+\})',c).group(1)) and re.search(r'\b'+re.escape(OTAG[re.match(r'(.*\{impl#\d+\})',c).group(1)])+r'\b',g)]
+            if len(o3)==1: return o3[0]
+            raise Unsupported('ambiguous trait call '+p[-30:])
         return None
     def impl_generics(s,r,gargs):
         ar=max(GENARITY.get(r,0), len(Fn.gen_of(s.sigs,r)))
@@ -465,7 +471,7 @@ class Fn:
         return v
     def do_call(s,k,target,ind,ty):
         """call with &mut params or complex args"""
-        p,gargs=s.callee(k)
+        p,gargs=s.callee(k); s.cur_gargs=gargs
         if p is None: raise Unsupported('indirect call')
         if p.startswith('core[') and '::panicking::' in p:
             s.emit(ind,'throw Rs.Trap.panic'); return
@@ -553,6 +559,9 @@ class Fn:
                 if len(s.lines)==n0: s.emit(ind+1,'pure ()')
             return
         if h.startswith(('Use','ValueTypeAscription')): return s.assign_to(s.sub(k,'source:'),target,ind)
+        if h.startswith('LogicalOp'):
+            v=s.cond(e,ind)
+            s.emit(ind,(f'{target} := ' if target else 'let _ := ')+v); return
         if h.startswith('Match'): return s.match(k,target,ind)
         if h.startswith('Call'): return s.do_call(k,target,ind,ty)
         # n-ary strict nodes with complex operands: hoist all operands in order (ANF)
@@ -857,9 +866,38 @@ class Fn:
         return '\n'.join(s.loops+[hdr]+s.lines)
 
 def stable_names(bodies,sigs,impls):
-    """path -> Lean name that does not depend on rustc's {impl#k} numbering:
-    the impl segment is replaced by <Self>[.<Trait>]; collisions get a parameter-type suffix."""
-    def san(x): return re.sub(r'[^A-Za-z0-9_]','_',x)
+    """path -> Lean name that does not depend on rustc's {impl#k} numbering: the impl segment becomes
+    <Self>[.<Trait>]; when several impls share (module, Self, Trait) — generic traits such as From<T>,
+    AddAssign<T>, Quire<P> — the trait segment gets a tag made of the types that occur only in that impl."""
+    def san(x): return re.sub(r'_+','_',re.sub(r'[^A-Za-z0-9_]','_',x)).strip('_')
+    def enc(t):
+        t=re.sub(r'softposit\[\w+\]::|\w+::','',re.sub(r"&'?\{?\w*\}?\s*(mut\s+)?",'ref ',t)).replace(' ','')
+        t=re.sub(r'<[^<>]*>','',t)
+        t=t.replace('(','L').replace(')','R').replace('[','A').replace(']','').replace(';','x').replace('_usize','')
+        return san(t)
+    def owner_of(p):
+        m=re.match(r'(.*\{impl#\d+\})',p)
+        return m.group(1) if m else None
+    # types used by each impl
+    otypes=collections.defaultdict(set); okey={}
+    for p in bodies:
+        o=owner_of(p)
+        if o is None: continue
+        sg=sigs.get(p)
+        if sg:
+            for t in list(sg.params)+[sg.ret]: otypes[o].add(enc(t))
+        tr,slf=impls.get(o,[None,None])
+        okey[o]=(re.sub(r'\{impl#\d+\}$','',o),slf,tr)
+    groups=collections.defaultdict(list)
+    for o,k in okey.items(): groups[k].append(o)
+    otag={}
+    for k,os_ in groups.items():
+        if len(os_)<2 or k[2] in (None,'<inherent>'): continue
+        for o in os_:
+            others=set().union(*[otypes[x] for x in os_ if x!=o])
+            uniq=sorted(t for t in otypes[o]-others if t)
+            otag[o]=min(uniq,key=lambda t:(len(t),t)) if uniq else ''
+    OTAG.update(otag)
     prelim={}
     for p in bodies:
         q=re.sub(r'^softposit\[\w+\]::','',p)
@@ -871,7 +909,10 @@ def stable_names(bodies,sigs,impls):
                 tr,slf=impls.get(pref,[None,None])
                 slf=slf or 'Self'
                 if tr in (None,'<inherent>'): out.append(slf)
-                else: out.append(slf); out.append(re.sub(r'\[\w+\]','',tr).split('::')[-1])
+                else:
+                    out.append(slf); t=re.sub(r'\[\w+\]','',tr).split('::')[-1]
+                    if otag.get(pref): t=t+'_'+otag[pref]
+                    out.append(t)
             else:
                 sg=sg.replace('{closure#','closure').replace('{constant#','constant').replace('{','').replace('}','')
                 out.append(san(sg))
@@ -881,16 +922,9 @@ def stable_names(bodies,sigs,impls):
     names={}
     for n,ps in groups.items():
         if len(ps)==1: names[ps[0]]=n; continue
-        used=set()
-        for p in sorted(ps):
-            sg=sigs.get(p)
-            suf='_'.join(san(re.sub(r'softposit\[\w+\]::|\w+::','',re.sub(r"&'?\{?\w*\}?\s*(mut\s+)?",'ref ',t)).replace(' ','')) for t in sg.params) if sg else ''
-            suf=re.sub(r'_+','_',suf).strip('_') or 'v'
-            cand=n+'.'+suf; i=1
-            if sum(1 for q in ps if sigs.get(q) and [raw_ty(t) for t in sigs[q].params]==[raw_ty(t) for t in sg.params])>1 if sg else False:
-                cand=cand+'_to_'+san(re.sub(r'softposit\[\w+\]::|\w+::','',sg.ret)).strip('_')
-            while cand in used: i+=1; cand=f'{n}.{suf}{i}'
-            used.add(cand); names[p]=cand
+        def ikey(p):
+            m=re.search(r'\{impl#(\d+)\}',p); return (int(m.group(1)) if m else -1,p)
+        for i,p in enumerate(sorted(ps,key=ikey)): names[p]=n+('.v%d'%(i+1))
     return names
 
 def load(thir_path,hir_path):
